@@ -225,6 +225,12 @@ func ruleSPLIT1(w *World) []Ob {
 						continue
 					}
 				}
+				// builder.Len() != 0 on the builder whose String() is sent
+				if lc, isC := x.X.(*ssa.Call); isC && isBuilderMethod(lc, "Len") && builderOf(sent) != nil && sameObject(lc.Common().Args[0], builderOf(sent)) {
+					if k, isK := constInt(x.Y); isK && k == 0 && ((x.Op == token.NEQ || x.Op == token.GTR) == pol) {
+						continue
+					}
+				}
 				// block != "" is the same test as len(block) != 0
 				if (x.Op == token.NEQ && pol) || (x.Op == token.EQL && !pol) {
 					if (isEmptyStringConst(x.Y) && sameVar(x.X, sent)) || (isEmptyStringConst(x.X) && sameVar(x.Y, sent)) {
@@ -313,6 +319,66 @@ func ruleSPLIT1(w *World) []Ob {
 			}
 		}
 	})
+	// the same with a strings.Builder / bytes.Buffer accumulator: WriteString(line) followed by a newline write
+	// (or Fprintln into it), guarded by nothing but the loop and the cancellation poll
+	allInstrs(fn, func(in ssa.Instruction) {
+		c, ok := in.(*ssa.Call)
+		if !ok || appended || !scan.Block().Dominates(c.Block()) {
+			return
+		}
+		line := false
+		switch {
+		case isBuilderMethod(c, "WriteString") && len(c.Common().Args) == 2:
+			if tc, ok := resolve(c.Common().Args[1]).(*ssa.Call); ok && calleeFullName(tc.Common()) == "(*bufio.Scanner).Text" {
+				// a newline is written to the same builder later in the same block
+				for _, in2 := range c.Block().Instrs[instrIndex(c)+1:] {
+					c2, ok := in2.(*ssa.Call)
+					if !ok || len(c2.Common().Args) != 2 || !sameObject(c2.Common().Args[0], c.Common().Args[0]) {
+						continue
+					}
+					if isBuilderMethod(c2, "WriteByte") || isBuilderMethod(c2, "WriteRune") {
+						if k, isK := constInt(stripConv(c2.Common().Args[1])); isK && k == 10 {
+							line = true
+						}
+					}
+					if isBuilderMethod(c2, "WriteString") {
+						if s, isS := constString(c2.Common().Args[1]); isS && s == "\n" {
+							line = true
+						}
+					}
+				}
+			}
+		case calleeFullName(c.Common()) == "fmt.Fprintln" && len(c.Common().Args) == 2:
+			if els, ok := variadicElems(c.Common().Args[1]); ok && len(els) == 1 {
+				if tc, ok := resolve(stripConv(els[0])).(*ssa.Call); ok && calleeFullName(tc.Common()) == "(*bufio.Scanner).Text" {
+					line = true
+				}
+			}
+		}
+		if !line {
+			return
+		}
+		onlyPoll := true
+		for _, g := range guardsOf(c.Block()) {
+			c2, _ := flattenCond(g.Cond, g.Pol)
+			switch y := c2.(type) {
+			case *ssa.Call:
+				if y != scan {
+					onlyPoll = false
+				}
+			case *ssa.BinOp:
+				if ex, ok := y.X.(*ssa.Extract); ok {
+					if _, isSel := ex.Tuple.(*ssa.Select); isSel {
+						continue
+					}
+				}
+				onlyPoll = false
+			}
+		}
+		if onlyPoll {
+			appended = true
+		}
+	})
 	if appended {
 		l.ok(fid, "every line is appended to the current block", p.Pos(fn.Pos()), "block += Sprintln(line) unconditionally in the loop body", true, "split")
 	} else {
@@ -364,4 +430,18 @@ func separateRowBody(p *Prog) *ssa.Function {
 		return body
 	}
 	return sep
+}
+
+// isBuilderMethod: a call of (*strings.Builder).<name> or (*bytes.Buffer).<name>.
+func isBuilderMethod(c *ssa.Call, name string) bool {
+	n := calleeFullName(c.Common())
+	return n == "(*strings.Builder)."+name || n == "(*bytes.Buffer)."+name
+}
+
+// builderOf: v is builder.String(); returns the builder (its address).
+func builderOf(v ssa.Value) ssa.Value {
+	if c, ok := stripConv(v).(*ssa.Call); ok && isBuilderMethod(c, "String") && len(c.Common().Args) == 1 {
+		return c.Common().Args[0]
+	}
+	return nil
 }
